@@ -755,6 +755,72 @@ macro_rules! g_blocks_part {
     }};
 }
 
+/// C04, quick form for parallel width 1 (two block computations instead of nine): the single-block b2b call with the
+/// output buffer pre-filled with ARBITRARY bytes equals the in-place call on the same block, and the separate input is
+/// unchanged.  For these types the multi-block entry points are the `cipher` crate's loop over this very call, so what a
+/// type can get wrong is here: reading through the output side, writing the input, depending on what the output held.
+#[allow(unused_macros)]
+macro_rules! g_b2b1 {
+    ($name:ident, $ty:ty, $bs:expr, $valid:expr, $dir:ident $(, stubs: [$(($o:path, $r:path)),*])?) => {
+        verif_harness! {
+            name: $name,
+            bytes: core::mem::size_of::<$ty>() + 2 * $bs,
+            unwind: 5000,
+            $(stubs: [$(($o, $r)),*],)?
+            prop: |inp| {
+                const S: usize = core::mem::size_of::<$ty>();
+                let valid = generic::as_valid($valid);
+                vassume!(valid(&inp[..S]));
+                let mut a = core::mem::MaybeUninit::<$ty>::uninit();
+                generic::fill(&mut a, &inp[..S]);
+                let c = generic::as_ref(&a);
+                let x: [u8; $bs] = take(&inp[..], S);
+                let g: [u8; $bs] = take(&inp[..], S + $bs);
+                let mut r: cipher::Block<$ty> = x.into();
+                g_dir!($dir, block, c, &mut r);
+                let i0: cipher::Block<$ty> = x.into();
+                let mut o: cipher::Block<$ty> = g.into();
+                g_dir!($dir, block_b2b, c, &i0, &mut o);
+                Some((i0.0 == x) & (o == r))
+            }
+        }
+    };
+}
+
+/// C15 / C20, quick form (two block computations): the same call twice on one arbitrary-state instance gives the same
+/// result, returns normally, and leaves every byte of the instance unchanged.
+#[allow(unused_macros)]
+macro_rules! g_frame2 {
+    ($name:ident, $ty:ty, $bs:expr, $valid:expr, $dir:ident $(, stubs: [$(($o:path, $r:path)),*])?) => {
+        verif_harness! {
+            name: $name,
+            bytes: core::mem::size_of::<$ty>() + $bs,
+            unwind: 5000,
+            $(stubs: [$(($o, $r)),*],)?
+            prop: |inp| {
+                const S: usize = core::mem::size_of::<$ty>();
+                let valid = generic::as_valid($valid);
+                vassume!(valid(&inp[..S]));
+                let mut a = core::mem::MaybeUninit::<$ty>::uninit();
+                generic::fill(&mut a, &inp[..S]);
+                let x: [u8; $bs] = take(&inp[..], S);
+                let mut b1: cipher::Block<$ty> = x.into();
+                g_dir!($dir, block, generic::as_ref(&a), &mut b1);
+                let mut b2: cipher::Block<$ty> = x.into();
+                g_dir!($dir, block, generic::as_ref(&a), &mut b2);
+                let after: [u8; S] = unsafe { core::ptr::read(a.as_ptr() as *const [u8; S]) };
+                let mut diff = 0u8;
+                let mut i = 0;
+                while i < S {
+                    diff |= after[i] ^ inp[i];
+                    i += 1;
+                }
+                Some((b1 == b2) & (diff == 0))
+            }
+        }
+    };
+}
+
 /// C15 mixed directions, one half (see g_mixed): after $first(x) on the instance, $second(x) returns what a pristine
 /// instance with the same state returns; instance bytes unchanged.
 #[allow(unused_macros)]
